@@ -117,6 +117,9 @@ type Env struct {
 	FastOpt    bool // emit the optional extra fetch/apply of two-leaf and/or
 	RecordApps bool
 	StrictAll  bool // evaluate every operand of every reached and/or (no short-circuit); if stays lazy
+	// FastStrict: a two-leaf and/or fetches both leaves and applies the operator to both (type checks included), the way
+	// the pinned engine's inlined two-leaf operators do. Only used to recognise the open C02 finding, never as an oracle.
+	FastStrict bool
 	WantCov    bool
 
 	// outputs
@@ -268,6 +271,25 @@ func (env *Env) evalAndOr(n *Node, parent *Node) (interface{}, error) {
 	// Fast two-leaf and/or may fetch both leaves and apply the operator even
 	// when the first leaf decides: the permitted extra work.
 	twoLeaf := env.FastOpt && len(n.Ch) == 2 && n.Ch[0].IsLeaf() && n.Ch[1].IsLeaf()
+	if env.FastStrict && len(n.Ch) == 2 && n.Ch[0].IsLeaf() && n.Ch[1].IsLeaf() {
+		res := !isOr
+		for _, c := range n.Ch {
+			v, err := env.eval(c, n)
+			if err != nil {
+				return nil, err
+			}
+			b, ok := v.(bool)
+			if !ok {
+				return nil, &BuiltinErr{Op: n.Name, Args: []interface{}{v}, Why: "non-bool operand of an inlined two-leaf and/or"}
+			}
+			if isOr {
+				res = res || b
+			} else {
+				res = res && b
+			}
+		}
+		return res, nil
+	}
 
 	for i, c := range n.Ch {
 		if decided && !env.StrictAll {
